@@ -54,12 +54,11 @@ class InstantiatedGlobalFunction(parser.GlobalFunction):
     def to_cpp(self):
         """Generate the C++ code for wrapping."""
         if self.original.template:
-            instantiated_names = [
-                "::".join(inst.namespaces + [inst.instantiated_name()])
-                for inst in self.instantiations
-            ]
+            # the C++ spelling of each argument (not its instantiated name:
+            # std::vector<double> must not become std::vectordouble)
+            instantiation_list = [x.to_cpp() for x in self.instantiations]
             ret = "{}<{}>".format(self.original.name,
-                                  ",".join(instantiated_names))
+                                  ",".join(instantiation_list))
         else:
             ret = self.original.name
         return ret
